@@ -608,12 +608,13 @@ PAIR_GRID = [
     ("permessage-deflate; client_max_window_bits=15; server_max_window_bits=13", {"mem_level": 4}, {"compression_level": 3}),
     ("permessage-deflate; client_max_window_bits=10; server_max_window_bits=15; client_no_context_takeover", {}, {"mem_level": 2}),
 ]
+NO_TAKEOVER = ("client_no_context_takeover", "server_no_context_takeover")
 
 
 class PairReal:
     """Real websocket_connect client <-> real WebSocketHandler server behind WsChannel's actions."""
 
-    def __init__(self, cfg, cat, grid=0, mode="cb", seed=0, record=None):
+    def __init__(self, cfg, cat, grid=0, mode="cb", seed=0, record=None, recompress=False):
         import random
         self.cat = cat
         self.rng = random.Random(seed)
@@ -636,12 +637,37 @@ class PairReal:
         resp = self.server.request(hs)
         if resp is None or not resp.startswith(b"HTTP/1.1 101"):
             raise RuntimeError("pair handshake failed: %r" % resp)
+        # The harness stands for a conformant peer on both sides: a no_context_takeover parameter in
+        # the offer the server accepted binds the connection (RFC 7692 7.1.1), so it is part of the
+        # answer the client sees even if the server did not repeat it.
+        demanded = [k for k in NO_TAKEOVER if offer and k in [x.strip() for x in offer.split(";")]]
+        if demanded and b"permessage-deflate" in resp:
+            lines = resp.decode("latin1").split("\r\n")
+            for i, ln in enumerate(lines):
+                if ln.lower().startswith("sec-websocket-extensions:"):
+                    have = [x.strip() for x in ln.split(":", 1)[1].split(";")]
+                    lines[i] = ln + "".join("; " + k for k in demanded if k not in have)
+            resp = "\r\n".join(lines).encode("latin1")
         self.client.stream.feed(resp)
         self.env.settle()
         if self.client.connect_state() != "ok":
             raise RuntimeError("pair handshake: client %s" % self.client.connect_state())
         self.client.conn = self.client.fut.result()
         self.negotiated = [ln for ln in resp.decode("latin1").split("\r\n") if ln.lower().startswith("sec-websocket-extensions")]
+        # negotiated permessage-deflate parameters (plumbing: split the header the server sent)
+        self.params = None
+        for ln in self.negotiated:
+            parts = [x.strip() for x in ln.split(":", 1)[1].split(";")]
+            if parts[0] == "permessage-deflate":
+                self.params = {}
+                for x in parts[1:]:
+                    k, _, v = x.partition("=")
+                    self.params[k.strip()] = v.strip().strip('"')
+        self.recompress = recompress
+        self.sent = {"c2s": [], "s2c": []}          # message ids written by the applications, not yet seen on the wire
+        self.wire_errors = []
+        self._inflate = {}
+        self._deflate = {}
 
     def _sender(self, d):
         return self.client if d == "c2s" else self.server
@@ -658,6 +684,7 @@ class PairReal:
                 self.client.conn.write_message(msg, binary=e["kind"] == "binary")
             else:
                 self.server.handler.write_message(msg, binary=e["kind"] == "binary")
+            self.sent[d].append(mid)
             self.env.settle()
         elif act == "transfer":
             d, k, ctl, seg = args
@@ -673,6 +700,7 @@ class PairReal:
             for hdr, key, pl in frames:
                 if opcode(hdr) < 8:
                     self.record.append({"a": "wire", "args": [d, list(hdr + (key or b"")), len(pl)]})
+        frames = self.conformance(d, frames)
         data = b"".join(refragment(frames, k, ctl, d == "c2s", self.rng))
         for c in chunked(data, seg, self.rng):
             dst.feed(c)
@@ -686,6 +714,55 @@ class PairReal:
         if ctlback:
             src.feed(b"".join(refragment(ctlback, 1, "none", d == "s2c", self.rng)))
             src.take_frames()
+
+    def conformance(self, d, frames):
+        """The harness as a conformant permessage-deflate peer (zlib is the opaque codec): what the
+        real sender put on the wire must inflate, under the parameters negotiated for the sender's
+        side (window bits; a fresh context per message if <side>_no_context_takeover was agreed),
+        to the message the application wrote.  With `recompress` the messages are forwarded
+        re-deflated by the harness' own compressor for that side, which keeps its context across
+        messages whenever the negotiation allows it (so back-references cross message
+        boundaries and the real receiver must have kept its context too)."""
+        if self.params is None:
+            for hdr, key, pl in frames:
+                if opcode(hdr) < 8 and self.sent[d]:
+                    mid = self.sent[d].pop(0)
+                    if pl != self.cat.by_id[mid]["data"]:
+                        self.wire_errors.append("payload differs from message %d" % mid)
+            return frames
+        side = "client" if d == "c2s" else "server"
+        no_takeover = (side + "_no_context_takeover") in self.params
+        wbits = int(self.params.get(side + "_max_window_bits") or 15)
+        out = []
+        for hdr, key, pl in frames:
+            if opcode(hdr) >= 8 or not self.sent[d]:
+                out.append((hdr, key, pl))
+                continue
+            mid = self.sent[d].pop(0)
+            want = self.cat.by_id[mid]["data"]
+            if not (rsv(hdr) & 4):
+                if pl != want:
+                    self.wire_errors.append("uncompressed payload differs from message %d" % mid)
+                out.append((hdr, key, pl))
+                continue
+            if no_takeover or d not in self._inflate:
+                self._inflate[d] = zlib.decompressobj(-wbits)
+            try:
+                got = self._inflate[d].decompress(pl + b"\x00\x00\xff\xff")
+            except zlib.error as e:
+                self.wire_errors.append("sender's frame does not inflate under the negotiated parameters (%s_max_window_bits=%d, no_context_takeover=%s): %s"
+                                        % (side, wbits, no_takeover, e))
+                out.append((hdr, key, pl))
+                continue
+            if got != want:
+                self.wire_errors.append("inflated payload differs from message %d" % mid)
+            if self.recompress:
+                if no_takeover or d not in self._deflate:
+                    self._deflate[d] = zlib.compressobj(9, zlib.DEFLATED, -wbits, 9)
+                pl = deflate_message(want, comp=self._deflate[d])
+                hdr = encode_header(1, 4, opcode(hdr), False, len(pl))
+            out.append((hdr, key, pl))
+        return out
 
     def delivered(self, side):
         return [self.cat.ident(e[1])["id"] for e in side.events if e[0] == "msg"]
